@@ -384,6 +384,56 @@ pub fn run(seeds: &[u64], _thorough: bool, root: &Path, t: &mut Trace, ctr: &mut
 				ctr.inc("matrix.ops");
 			}
 		}
+		// refusal because of a stored background error: a VALID transaction (tree insertions with
+		// new nodes, a tree dereference, key-value operations) must be refused with Err(Background)
+		// and leave no trace: no claimed slots, nothing in the overlays, nothing after reopen
+		{
+			drain(&db, pending + 20);
+			let before = snapshot(&db, nkeys);
+			db.verif_store_err(Err(parity_db::Error::Io(std::io::Error::new(std::io::ErrorKind::Other, "injected by the c08 harness"))));
+			let mut refused = 0;
+			for round in 0..2 {
+				let mut tx: Vec<(u8, Op)> = vec![];
+				for (ci, c) in COLS.iter().enumerate() {
+					if c.multitree && !c.btree {
+						tx.push((ci as u8, Op::InsTree(key(700 + 10 * round + ci as u64), 2 + rng.below(4) as usize)));
+						if !c.append_only {
+							if let Some(k) = roots[ci].keys().next().cloned() {
+								tx.push((ci as u8, Op::DerefTree(k)));
+							}
+						}
+					} else {
+						let k = key(rng.below(nkeys));
+						let v = val_for(&k);
+						tx.push((ci as u8, Op::Set(k, v)));
+					}
+				}
+				let r = db.commit_changes(tx.iter().map(|(c, o)| (*c, to_db(o))).collect::<Vec<_>>());
+				match &r {
+					Err(e) if err_kind(e) == "Background" => refused += 1,
+					other => {
+						t.oracle_fail(prop, &format!("commit after a stored background error returned {:?} instead of Err(Background)", other.as_ref().map_err(err_kind)));
+						ok = false;
+					},
+				}
+				let after = snapshot(&db, nkeys);
+				if after != before {
+					let d: Vec<_> = before.iter().zip(after.iter()).filter(|(a, b)| a != b).take(3).collect();
+					t.oracle_fail(prop, &format!("commit refused because of a background error changed the observable state: {:?}", d));
+					ok = false;
+				}
+			}
+			ctr.add("bgerr.refused", refused);
+			drop(db);
+			db = Db::open(&opts).unwrap();
+			let reopened = snapshot(&db, nkeys);
+			if reopened != before {
+				let d: Vec<_> = before.iter().zip(reopened.iter()).filter(|(a, b)| a != b).take(3).collect();
+				t.oracle_fail(prop, &format!("state after reopen differs from the state before the refused commits: {:?}", d));
+				ok = false;
+			}
+			rejected += refused;
+		}
 		// out-of-range column id
 		let r = db.commit_changes(vec![(COLS.len() as u8 + 3, Operation::Set(b"k".to_vec(), b"v".to_vec()))]);
 		t.op(&format!("c08 validate {} {} 0 0 0 0 set", COLS.len(), COLS.len() + 3), &match &r { Ok(()) => "ok".to_string(), Err(e) => format!("err:{}", err_kind(e)) });
